@@ -114,12 +114,20 @@ func hashEq(a, b Hash) (eq bool, decided bool) {
 			return true, true
 		}
 	}
-	// different algorithm sets: if a common algorithm disagrees they differ for sure,
-	// otherwise the statement ("hashes equal") leaves it open.
+	// different algorithm sets: if a common algorithm disagrees they differ for sure; without any
+	// common algorithm nothing speaks for equality either; otherwise (the common algorithms agree,
+	// one side has more) the statement ("hashes equal") leaves it open.
+	common := 0
 	for k, v := range a {
-		if w, ok := b[k]; ok && w != v {
-			return false, true
+		if w, ok := b[k]; ok {
+			common++
+			if w != v {
+				return false, true
+			}
 		}
+	}
+	if common == 0 {
+		return false, true
 	}
 	return false, false
 }
@@ -300,4 +308,24 @@ func RuleTypes(rules [][]string) string {
 	}
 	sort.Strings(out)
 	return strings.Join(out, "+")
+}
+
+// Item evaluates both rule lists of one item: the materials rules on its materials, then the
+// products rules on its products; each list has its own queue.
+func Item(matRules, prodRules [][]string, own LinkArts, links map[string]LinkArts) (Verdict, string) {
+	vm, wm := Rules(matRules, "materials", own, links, RulesOpt{})
+	if vm == Reject {
+		return Reject, "materials:" + wm
+	}
+	vp, wp := Rules(prodRules, "products", own, links, RulesOpt{})
+	if vp == Reject {
+		if vm == DontCare {
+			return DontCare, wm
+		}
+		return Reject, "products:" + wp
+	}
+	if vm == DontCare || vp == DontCare {
+		return DontCare, wm + wp
+	}
+	return Accept, ""
 }
